@@ -381,8 +381,9 @@ func (s *Server) handlePostHalt(w http.ResponseWriter, r *http.Request) {
 		return
 	}
 
-	// Acquire write locks on behalf of remote node.
-	haltLock, err := db.AcquireHaltLock(r.Context(), lockID)
+	// Acquire write locks on behalf of remote node. The wait for them ends
+	// when the primary lease is lost: only the primary hands out halt locks.
+	haltLock, err := db.AcquireHaltLock(s.store.PrimaryCtx(r.Context()), lockID)
 	if err != nil {
 		Error(w, r, fmt.Errorf("acquire halt lock: %w", err), http.StatusInternalServerError)
 		return
